@@ -121,6 +121,14 @@ let register (reg : string -> (string list -> string) -> unit) =
       let keys = List.sort compare (List.map (fun (k, _) -> int_of_z k) s1.f_wal) in
       "[" ^ String.concat "," (List.map string_of_int keys) ^ "]"
     | _ -> failwith "args");
+  (* ackpages <[page index of every event]> <T> <N> : kept page, clean-all flag, events skipped to the new read position *)
+  reg "ackpages" (fun a -> match a with
+    | [ps; t; n] ->
+      let psl = List.map (fun z -> nat_of_int (int_of_z z)) (list_of_tok ps) in
+      let nn = nat_of_int (int_of_string n) in
+      let (kept, clean) = ack_pages psl O (nat_of_int (int_of_string t)) nn in
+      string_of_int (int_of_nat kept) ^ " " ^ bool_tok clean ^ " " ^ string_of_int (int_of_nat (ack_skips psl kept nn))
+    | _ -> failwith "args");
   reg "pagescript" pagescript;
   (* lockscript s p r op... : per op the new state, or B when the op would block (state unchanged) *)
   reg "lockscript" (fun a -> match a with
